@@ -74,7 +74,14 @@ type rewriter struct {
 
 // Run rewrites the working tree at repo into outDir and writes
 // outDir/overlay.json. It returns statistics for the audit.
-func Run(repo, outDir string) (*Stats, error) {
+func Run(repo, outDir string) (*Stats, error) { return RunAs(repo, repo, outDir) }
+
+// RunAs instruments the tree at repo but keys the overlay by the paths of
+// keyRepo (the directory the module's replace directive points at), so that a
+// scratch copy of the repository can be checked without touching keyRepo: every
+// Go file of repo that is not rewritten and differs from keyRepo's is mapped
+// as it is, and files that exist only in keyRepo are mapped to "deleted".
+func RunAs(repo, keyRepo, outDir string) (*Stats, error) {
 	st := &Stats{}
 	if err := os.RemoveAll(outDir); err != nil {
 		return nil, err
@@ -114,8 +121,56 @@ func Run(repo, outDir string) (*Stats, error) {
 		if err := os.WriteFile(dst, out, 0o644); err != nil {
 			return nil, err
 		}
-		overlay[src] = dst
+		overlay[filepath.Join(keyRepo, rel)] = dst
 		st.Files++
+	}
+	if repo != keyRepo {
+		seen := map[string]bool{}
+		err := filepath.WalkDir(repo, func(path string, d os.DirEntry, err error) error {
+			if err != nil {
+				return err
+			}
+			rel, _ := filepath.Rel(repo, path)
+			if d.IsDir() {
+				if d.Name() == ".git" {
+					return filepath.SkipDir
+				}
+				return nil
+			}
+			if !strings.HasSuffix(path, ".go") && d.Name() != "go.mod" && d.Name() != "go.sum" {
+				return nil
+			}
+			seen[rel] = true
+			key := filepath.Join(keyRepo, rel)
+			if _, done := overlay[key]; done {
+				return nil
+			}
+			a, _ := os.ReadFile(path)
+			b, err2 := os.ReadFile(key)
+			if err2 != nil || !bytes.Equal(a, b) {
+				overlay[key] = path
+			}
+			return nil
+		})
+		if err != nil {
+			return nil, err
+		}
+		filepath.WalkDir(keyRepo, func(path string, d os.DirEntry, err error) error {
+			if err != nil {
+				return nil
+			}
+			rel, _ := filepath.Rel(keyRepo, path)
+			if d.IsDir() {
+				if d.Name() == ".git" {
+					return filepath.SkipDir
+				}
+				return nil
+			}
+			if strings.HasSuffix(path, ".go") && !seen[rel] {
+				overlay[path] = ""
+			}
+			return nil
+		})
 	}
 	if st.LockSites != st.LockRewrit {
 		return st, fmt.Errorf("lock-site audit: %d Lock/Unlock call sites, %d rewritten", st.LockSites, st.LockRewrit)
